@@ -243,7 +243,7 @@ type scriptLimit struct {
 	onSet func()
 }
 
-func (l *scriptLimit) EstimatedLimit() int                      { return l.est }
+func (l *scriptLimit) EstimatedLimit() int                     { return l.est }
 func (l *scriptLimit) NotifyOnChange(core.LimitChangeListener) {}
 func (l *scriptLimit) OnSample(start, rtt int64, inflight int, drop bool) {
 	l.calls = append(l.calls, []int64{rtt, int64(inflight), B(drop)})
